@@ -309,6 +309,20 @@ func runCase(w *world, kssKeys map[string]*gabikeys.PublicKey, c aCase, rng *mra
 			o := append([]*big.Int{}, in[i].OtherCommitments...)
 			o[0], o[1] = o[1], o[0]
 			in[i].OtherCommitments = o
+		case "valueNil":
+			in[i].Value = nil
+		case "commitmentNil":
+			in[i].Commitment = nil
+		case "otherNil":
+			o := append([]*big.Int{}, in[i].OtherCommitments...)
+			o[0] = nil
+			in[i].OtherCommitments = o
+		case "negate":
+			in[i].Value, in[i].Commitment = new(big.Int).Neg(in[i].Value), new(big.Int).Neg(in[i].Commitment)
+		case "nonceNil":
+			responseRequest.Nonce = nil
+		case "respNil":
+			responseRequest.UserResponse = nil
 		case "shiftValComm":
 			in[i].Value, in[i].Commitment = redivide(in[i].Value, in[i].Commitment)
 		case "shiftCommOther":
